@@ -273,6 +273,9 @@ func famSesHs(t *testing.T, r *Rec) {
 					r.Violate("C06", "C06/open-packet/json", "open packet is not JSON: "+string(pk[0].data), replay)
 					continue
 				}
+				if !strings.Contains(string(pk[0].data), `"upgrades":[`) {
+					r.Violate("C06", "C06/open-packet/upgrades-not-a-list", "the open packet's upgrades field is not a JSON list: "+string(pk[0].data), replay)
+				}
 				var wantUp []string
 				if c.upgrades && h.transport == "polling" {
 					for _, u := range []string{"websocket", "webtransport"} {
@@ -676,6 +679,17 @@ func hbExtra(t *testing.T, r *Rec) {
 			l = hs(4)
 			l = append(l, "ses ws s0 4 0", "ses frame 0 t 3270726f6265", "ses frame 0 t 35", "ses adv 400", "ses frame 0 t 33", "ses adv 400", "ses adv 199", "ses adv 1", "ses adv 5")
 			scens = append(scens, scen{"v4-heartbeat-after-upgrade", 4, l, []string{"400:ping", "400:heartbeat", "800:ping", "1000:close:ping_timeout"}})
+			// an upgrade attempt that fails (unexpected packet, candidate dropped) leaves the armed deadline alone:
+			// only a completed upgrade cancels it
+			l = hs(4)
+			l = append(l, "ses adv 400", "ses poll s0", "ses ws s0 4 0", "ses frame 0 t 7a7a", "ses adv 199", "ses adv 1", "ses adv 5")
+			scens = append(scens, scen{"v4-failed-candidate-keeps-deadline", 4, l, []string{"400:ping", "600:close:ping_timeout"}})
+			l = hs(4)
+			l = append(l, "ses adv 400", "ses poll s0", "ses ws s0 4 0", "ses frame 0 t 3270726f6265", "ses drop 0", "ses adv 199", "ses adv 1", "ses adv 5")
+			scens = append(scens, scen{"v4-dropped-candidate-keeps-deadline", 4, l, []string{"400:ping", "600:close:ping_timeout"}})
+			l = hs(3)
+			l = append(l, "ses adv 100", "ses ws s0 3 0", "ses drop 0", "ses adv 499", "ses adv 1", "ses adv 5")
+			scens = append(scens, scen{"v3-dropped-candidate-keeps-deadline", 3, l, []string{"600:close:ping_timeout"}})
 		}
 		for _, sc := range scens {
 			outs := sesRun(t, sc.lines)
@@ -741,6 +755,12 @@ func famSesHostile(t *testing.T, r *Rec) {
 	add("eio3-session-upgraded-over-eio4-ws/pong", "C09", "ses hs polling 3 0 -", "ses ws s1 4 0", "ses frame 0 t 3270726f6265", "ses poll s1", "ses frame 0 t 35", "ses frame 0 t 33")
 	add("eio4-ws-session/ping-before-first-server-ping", "C09", "ses hs websocket 4 0 -", "ses frame 0 t 32")
 	add("eio3-ws-session/pong", "C09", "ses hs websocket 3 0 -", "ses frame 0 t 33")
+	// frames that do not decode, in every shape: empty, not base64, unknown type
+	add("undecodable-frame/empty-text", "C03", "ses hs websocket 4 0 -", "ses frame 0 t -", "ses obs")
+	add("undecodable-frame/bad-base64-v4", "C03", "ses hs websocket 4 1 -", "ses frame 0 t "+hx([]byte("b%%%%")), "ses obs")
+	add("undecodable-frame/bad-base64-v3", "C03", "ses hs websocket 3 1 -", "ses frame 0 t "+hx([]byte("b4%%%%")), "ses obs")
+	add("undecodable-frame/unknown-type", "C03", "ses hs websocket 4 0 -", "ses frame 0 t 78", "ses obs")
+	add("undecodable-frame/empty-binary-v3", "C03", "ses hs websocket 3 0 -", "ses frame 0 b -", "ses obs")
 	// inflated and truncated length prefixes
 	add("v3-binary-body/12-digit-length", "C09", "ses hs polling 3 0 -", "ses post s1 b 1 00090909090909090909090909ff")
 	add("v3-binary-body/12-digit-length-binary-packet", "C09", "ses hs polling 3 0 -", "ses post s1 b 1 01090909090909090909090909ff04")
@@ -757,6 +777,9 @@ func famSesHostile(t *testing.T, r *Rec) {
 	add("v4-body/unexpected-types", "C09", "ses hs polling 4 0 -", "ses post s1 t 1 "+hx([]byte("0{}\x1e5\x1e6\x1e7x\x1e4ok")))
 	add("ws-frames/unexpected-types-and-empty", "C09", "ses hs websocket 4 0 -", "ses frame 0 t 30", "ses frame 0 t 35", "ses frame 0 t -", "ses frame 0 b -", "ses frame 0 t 37", "ses frame 0 t 346f6b")
 	add("ws-v3-frames/binary-garbage", "C09", "ses hs websocket 3 0 -", "ses frame 0 b ff00", "ses frame 0 b -", "ses frame 0 t 62", "ses frame 0 t 6234")
+	for _, ae := range []string{"gzip;q", "gzip;q=", "gzip;=1", ";", "gzip;;q=0.5;", "br;q=x, gzip"} {
+		add("accept-encoding/"+ae, "C09", "ses hs polling 4 0 -", "ses send s1 t "+hx(append([]byte("m"), bytes_repeat('h', 2000)...))+" 1 0 -", "ses poll s1 "+hx([]byte(ae)), "ses obs")
+	}
 	add("poll-aborted/handler-released", "C09", "ses hs polling 4 0 -", "ses poll s1", "ses abort 2", "ses adv 5")
 	add("post-after-close", "C09", "ses hs polling 4 0 -", "ses close s1 1", "ses post s1 t 1 346869", "ses poll s1")
 	// C11: every accepted data request gets exactly one response
@@ -819,6 +842,22 @@ func famSesHostile(t *testing.T, r *Rec) {
 			r.Violate("C09", "C09/handler-stuck/"+sc.name, "requests still parked at the end: "+last.pend, sc.lines)
 		}
 		switch sc.prop {
+		case "C03":
+			// a frame that does not decode is a parse error of that session, whatever shape the malformed input has
+			reasons := []string{}
+			for _, out := range outs {
+				if out == "-" || out == "ok" {
+					continue
+				}
+				for _, e := range parseObs(out).events {
+					if e.who == "s1" && e.name == "close" {
+						reasons = append(reasons, e.args[0])
+					}
+				}
+			}
+			if got := strings.Join(reasons, ","); got != "parse_error" {
+				r.Violate("C03", "C03/reason-of-cause/undecodable-frame/"+sc.name, "an undecodable frame closed the session with close events ["+got+"], want exactly one, reason parse error", sc.lines)
+			}
 		case "C11":
 			for i, l := range sc.lines {
 				if strings.Fields(l)[1] != "post" {
@@ -1249,6 +1288,10 @@ func famSesResp(t *testing.T, r *Rec) {
 					ae := round.ae
 					o := parseObs(outs[round.idx])
 					if len(o.resps) != 1 {
+						// a batch was waiting and the transport was idle: this poll is answered at once, whatever its Accept-Encoding says
+						for _, pr := range []string{"C11", "C16"} {
+							r.Violate(pr, pr+"/poll-with-data-waiting-not-answered", fmt.Sprintf("a poll with Accept-Encoding %q found a batch waiting and got %d responses", ae, len(o.resps)), lines[:round.idx+1])
+						}
 						continue
 					}
 					rs := o.resps[0]
@@ -1279,6 +1322,48 @@ func famSesResp(t *testing.T, r *Rec) {
 						if ae == "-" || !acceptNames(ae)[ce[0]] {
 							r.Violate("C16", "C16/coding-not-named-by-accept-encoding/"+ce[0], fmt.Sprintf("Content-Encoding %s although the request's Accept-Encoding is %q", ce[0], ae), replay)
 						}
+					}
+				}
+			}
+		}
+	}
+	// payloads that do not shrink under the coding, and revision-3 text payloads that do: whatever the server decides about
+	// the coding, the poll is answered, the body decodes to the batch and a text payload is served as text
+	for _, proto := range []int{4, 3} {
+		for _, ae := range []string{"gzip", "deflate", "br", "zstd"} {
+			for _, kind := range []string{"incompressible", "compressible"} {
+				msg := []byte("m0123456789abcdefghi")
+				if kind == "compressible" {
+					msg = append([]byte("m"), bytes_repeat('q', 1500)...)
+				}
+				lines := []string{"ses cfg 25000 20000 1000 100000 default 1 1 - 0 16", fmt.Sprintf("ses hs polling %d 0 -", proto),
+					fmt.Sprintf("ses send s0 t %s 1 0 -", hx(msg)), "ses poll s0 " + hx([]byte(ae))}
+				outs := sesRun(t, lines)
+				r.scenarios++
+				for i, l := range lines {
+					r.Op(l, outs[i])
+				}
+				r.Cover(fmt.Sprintf("resp/%s/proto=%d/ae=%s", kind, proto, ae))
+				o := parseObs(outs[3])
+				if len(o.resps) != 1 {
+					for _, pr := range []string{"C11", "C16", "C01"} {
+						r.Violate(pr, pr+"/poll-with-data-waiting-not-answered/"+kind, fmt.Sprintf("a revision-%d poll with Accept-Encoding %q found a batch waiting and got %d responses", proto, ae, len(o.resps)), lines)
+					}
+					continue
+				}
+				rs := o.resps[0]
+				want := hx(append([]byte("4"), msg...))
+				if proto == 3 {
+					want = hx(append([]byte(fmt.Sprintf("%d:4", len(msg)+1)), msg...))
+				}
+				if strings.Contains(rs.ce, "!") || rs.body != want {
+					for _, pr := range []string{"C16", "C01"} {
+						r.Violate(pr, pr+"/payload/"+kind, fmt.Sprintf("revision %d, Accept-Encoding %q: the (decoded) body is not the payload of the batch (Content-Encoding %s)", proto, ae, rs.ce), lines)
+					}
+				}
+				if rs.ct != "text" {
+					for _, pr := range []string{"C16", "C01"} {
+						r.Violate(pr, pr+"/content-type/"+kind, fmt.Sprintf("revision %d, Accept-Encoding %q, Content-Encoding %s: a text payload was served as %s (a revision-3 client picks its decoder by it)", proto, ae, rs.ce, rs.ct), lines)
 					}
 				}
 			}
